@@ -213,6 +213,7 @@ func checkC02(c *run.Ctx) {
 			Sharing:    mix(i, 3, 5) == 1,
 			TrickyKeys: mix(i, 4, 2) == 0,
 			BigMaps:    mix(i, 5, 4) == 0,
+			Coincide:   true,
 			Signature:  mix(i, 6, 3) == 1, // some steps arrive with a (stale) signature record: signing replaces it
 		}.NoSweep()
 		if interp {
